@@ -23,6 +23,17 @@ def mutate(t, rng, pool):
     return t
 
 
+def numeric_atoms(t, acc=None):
+    """texts of atoms that spell a number ('1', '2.5'): ProbLog's Term.signature strips the quotes, so they look like the number"""
+    import re
+    acc = set() if acc is None else acc
+    if t["t"] == "a" and re.match(r"^-?[0-9]+(\.[0-9]+)?$", T.txt(t["c"])):
+        acc.add(T.txt(t["c"]))
+    for a in t.get("a", []) if t["t"] == "c" else []:
+        numeric_atoms(a, acc)
+    return acc
+
+
 def gen_pairs(ctx, n):
     rng = random.Random(ctx.seed + 1414)
     U1 = T.universe(1, True, rng=rng)
@@ -41,6 +52,16 @@ def gen_pairs(ctx, n):
                (T.Cm("g", T.Cm("f", T.Cm("f", T.V(1))), T.Cm("f", T.V(2))), T.Cm("g", T.V(3), T.V(1)))]
     for x, y in special:
         pairs.append((x, y))
+    # look-alike constants (1 vs 1.0, a vs "a") below a functor, next to an argument that keeps the pair non-ground: the
+    # clause index cannot filter the clause, so the head unifier itself has to tell them apart
+    alike = [(T.I(n), T.F(4 * n)) for n in (0, 1, 2, -1)] + [(T.A("a"), T.S("a")), (T.A("1"), T.I(1))]
+    for la, lb in alike:
+        for p, q in ((la, lb), (lb, la), (la, la), (lb, lb)):
+            pairs += [(T.Cm("g", T.V(1), p), T.Cm("g", T.A("a"), q)), (T.Cm("g", T.A("a"), p), T.Cm("g", T.V(1), q)),
+                      (T.Cm("g", p, T.V(1)), T.Cm("g", q, T.V(2))), (T.Cm("f", p), T.Cm("f", q)),
+                      (T.Cm("g", T.Cm("f", p), T.V(1)), T.Cm("g", T.Cm("f", q), T.A("b"))),
+                      (T.Cm("g", T.Cm("g", T.V(1), p), T.A("b")), T.Cm("g", T.Cm("g", T.A("a"), q), T.V(2))),
+                      (T.L([p, T.V(1)]), T.L([q], T.V(2))), (T.L([T.V(1), p]), T.L([T.A("c"), q]))]
     while len(pairs) < n:
         r = rng.random()
         if r < 0.35:
@@ -93,7 +114,8 @@ def run(ctx):
             nunif += 1
         if not j["ok"]:
             x, y = pairs[c["id"]]
-            ctx.violation({"clause": j["why"]}, "%s  vs  %s : %s (=: %s, \\=: %s, head: %s)" % (
+            ctx.violation({"clause": j["why"], "numeric_atom": bool(numeric_atoms(x) | numeric_atoms(y))},
+                          "%s  vs  %s : %s (=: %s, \\=: %s, head: %s)" % (
                 T.render(x), T.render(y), j["why"], c["eq"]["ok"], c["neq"]["ok"], c["head"]["ok"]), {"x": x, "y": y})
     for c in send[:3]:
         ctx.sample({"x": T.render(pairs[c["id"]][0]), "y": T.render(pairs[c["id"]][1]), "eq": c["eq"]["ok"],
@@ -125,5 +147,5 @@ def replay(ctx, path):
                                             "head3": o["head3"]}], nproc=1)[0]
         print(j)
         if not j["ok"]:
-            ctx.violation({"clause": j["why"]}, j["why"], d["case"])
+            ctx.violation({"clause": j["why"], "numeric_atom": bool(numeric_atoms(x) | numeric_atoms(y))}, j["why"], d["case"])
     ctx.write_evidence("exploration", {"evaluations": 1, "distinct_nontrivial": 0, "rule": "replay", "samples": [d["case"]]})
